@@ -9,7 +9,7 @@ from vlib import regprog as RP
 # keys: (required indices into RegUniverse.req_pool(), provided index, name)
 KEYS = [((1,), 0, ''), ((1,), 0, 'n'), ((1,), 1, ''), ((2,), 0, ''), ((0,), 0, ''), ((1, 2), 0, ''), ((), 0, ''), ((1, 2), 1, '')]
 KEYS_SMALL = [((1,), 0, ''), ((1,), 1, ''), ((2,), 0, ''), ((1, 2), 0, '')]
-SUBKEYS = [((1,), 0), ((1,), None), ((1, 2), 0)]
+SUBKEYS = [((1,), 0), ((1,), None), ((0, 2), 0)]      # the arity-2 key spells its first position None (any object)
 V1, V1B, V2 = 'v1', ('v1b', 'v1'), 'v2'      # v1b == v1 but is a distinct object
 VF = ('FALSY', 'vf')                          # a value that is false in a boolean context
 
